@@ -24,7 +24,7 @@ RULE = ("feature tables with 2..3 string columns over alphabets containing ',', 
         "permuted rows, sub-tables (single groups, tables lacking some values) and held-out rows gives every row the "
         "probability its (score, tuple) got in the full training table. distinct = distinct (#columns, #tuples, container, "
         "special characters present, collision pairs present); non-trivial = >=2 distinct tuples.")
-ASSUMPTIONS = ["feature values are strings without NUL and without trailing whitespace", "every tuple group contains both labels "
+ASSUMPTIONS = ["string feature values without NUL and without trailing whitespace; numeric feature values without NaN, -0.0 and |int| > 2**53", "every tuple group contains both labels "
                "(ThresholdOptimizer precondition)"]
 
 ALPHABET = ["a", "b", "a,b", "b,c", "c", ",", "", "\\", "a\\", "\\b", "\\,", "\\\\", ",\\", "a b", " x", "1", "1.0", "01", "x,", ",x", "a\\,b"]
